@@ -470,7 +470,10 @@ def guard_by_truth_assignment(ctx, prog, SS, ex_all, z1, fd, forks, dir_sw=None,
     ctx = real_ctx
     # the guard's own presence test, for the rules that speak of "before the guard": the one closest to the build steps
     gsw = [e[0] for e in guard_E]
-    E = next((g for g in gsw if all(ba.dominates(o, g) for o in gsw)), gsw[-1] if gsw else Es[0][0])
+    # (dominated by all the others, or - a presence test under a short-circuit dominates nothing - the one that runs last:
+    # no other presence test is reachable from it)
+    last_ = [g for g in gsw if not any(o != g and ba.path([g], [o], incl=True) is not None for o in gsw)]
+    E = next((g for g in gsw if all(ba.dominates(o, g) for o in gsw)), last_[0] if len(last_) == 1 else (gsw[-1] if gsw else Es[0][0]))
     # R11.2 speaks of "before the guard"; with the guard located only approximately its failures are `cannot decide` too
     buf = _Buf()
     _r11_rest(buf, prog, SS, E)
